@@ -303,9 +303,17 @@ def oracle_rect(case, rec):
     if k >= 2 and sum(1 for a in axes if len(a) >= 2) >= 2:
         rec.nontrivial(True)
     want = G.product_multiset(axes)
+    # every axis in its own representation (an integer latitude axis next
+    # to a fractional longitude axis ...); the reference sees float64
+    reps = case.get("rep") or [None] * k
+
+    def given():
+        return [represent(a.copy(), key=r) for a, r in zip(axes, reps)]
+    if len({np.asarray(a).dtype for a in given()}) > 1:
+        rec.label("axes_of_mixed_dtype")
     ok, seq = rec.call("coord_sequence_from_rect_grid",
                        Grid.coord_sequence_from_rect_grid,
-                       [a.copy() for a in axes])
+                       given())
     if ok:
         seq = np.asarray(seq, dtype=np.float64)
         if rec.check(seq.shape == (k, ntot), "rect_shape", str(seq.shape)):
@@ -320,7 +328,7 @@ def oracle_rect(case, rec):
             if k == 1:
                 rec.equal(seq[0], axes[0], "rect_single_axis")
     ok, g = rec.call("Grid.RegularGrid", Grid.RegularGrid, np.arange(2.0),
-                     [a.copy() for a in axes], silence_level=3)
+                     given(), silence_level=3)
     if ok:
         rec.check(g.N == ntot, "regular_grid_N", "%r vs %r" % (g.N, ntot))
         got = sorted(tuple(float(v) for v in g.grid()["space"][:, i])
@@ -330,8 +338,7 @@ def oracle_rect(case, rec):
     if k == 2 and np.all(np.abs(axes[0]) <= 90):
         a, b = G.rect_product_2d(axes[0], axes[1])
         ok, ll = rec.call("GeoGrid.coord_sequence_from_rect_grid",
-                          GeoGrid.coord_sequence_from_rect_grid,
-                          axes[0].copy(), axes[1].copy())
+                          GeoGrid.coord_sequence_from_rect_grid, *given())
         if ok:
             rec.check(len(ll) == 2, "geo_rect_returns_pair")
             if len(ll) == 2:
@@ -340,8 +347,7 @@ def oracle_rect(case, rec):
                 rec.equal(np.asarray(ll[1], dtype=float), b,
                           "geo_rect_documented_order_lon")
         ok, gg = rec.call("GeoGrid.RegularGrid", GeoGrid.RegularGrid,
-                          np.arange(2.0), (axes[0].copy(), axes[1].copy()),
-                          silence_level=3)
+                          np.arange(2.0), tuple(given()), silence_level=3)
         if ok:
             rec.equal(np.asarray(gg.lat_sequence(), dtype=float), G.f32(a),
                       "geo_regular_grid_lat_sequence")
@@ -841,11 +847,15 @@ def rect_cases(draw):
     axes = []
     for _ in range(k):
         m = draw(st.integers(1, 5 if k <= 2 else 3))
-        ax = draw(st.lists(AXIS_VAL, min_size=m, max_size=m))
+        ax = draw(st.one_of(
+            st.lists(AXIS_VAL, min_size=m, max_size=m),
+            st.lists(st.integers(-90, 90).map(float), min_size=m,
+                     max_size=m)))
         if draw(st.booleans()):
             ax = sorted(ax)
         axes.append(ax)
-    return {"axes": axes}
+    return {"axes": axes,
+            "rep": draw(st.lists(st.integers(0, 7), min_size=k, max_size=k))}
 
 
 WTYPES = st.sampled_from(["surface", "irrigation", "none"])
